@@ -81,13 +81,17 @@ func TestVerifC03Lock(t *testing.T) {
 		// request-level faults: the next request of the armed kind from the armed client is
 		// cut before it is applied, applied with the reply lost, or left unanswered
 		type armed struct {
-			op  int32
-			act vs.ZKAction
+			op    int32
+			act   vs.ZKAction
+			rival func() // what another process does while the armed request is in limbo
 		}
 		arm := map[string]*armed{}
 		srv.Intercept = func(r *vs.ZKReq) vs.ZKAction {
 			if a := arm[r.Client]; a != nil && a.op == r.Op {
 				delete(arm, r.Client)
+				if a.rival != nil {
+					a.rival()
+				}
 				return a.act
 			}
 			return vs.ZKProceed
@@ -198,7 +202,19 @@ func TestVerifC03Lock(t *testing.T) {
 			case "arm-request-fault":
 				op := map[string]int32{"get": vs.OpGetData, "create": vs.OpCreate, "delete": vs.OpDelete}[c.Src.Pick("fault_op", "get", "create", "delete")]
 				act := map[string]vs.ZKAction{"cut-before": vs.ZKCutBefore, "reply-lost": vs.ZKCutAfter, "hang": vs.ZKHang}[c.Src.Pick("fault_kind", "cut-before", "reply-lost", "hang")]
-				arm[cl.name] = &armed{op, act}
+				a := &armed{op: op, act: act}
+				if n > 1 && c.Src.Bool("rival_acquires_while_the_request_is_in_limbo") {
+					// the interleaving a sequential driver cannot produce: another process takes the
+					// lock between this client's lost request and its retry
+					rv := clients[(cl.slot+1+c.Src.Int("rival", 0, n-2))%n]
+					a.rival = func() {
+						if rv.d.AcquireLock("manager") {
+							told[rv.slot] = true
+							c.Tracef("%v rival %s acquired inside %s's request", time.Now().Format("15:04:05.000"), rv.name, cl.name)
+						}
+					}
+				}
+				arm[cl.name] = a
 				cl.faulted = true
 			case "server-down":
 				srv.SetDown(true)
